@@ -763,16 +763,18 @@ def map_overlap(
             if isinstance(new_axis, Number):
                 new_axis = [new_axis]
 
-            # convert negative new_axis to equivalent positive value
-            ndim_out = max(a.ndim for a in args if isinstance(a, Array))
-            new_axis = [d % ndim_out for d in new_axis]
+            # new_axis holds positions in the output, which has one more axis
+            # per entry; convert negative values to equivalent positive ones
+            ndim_out = len(depth) + len(new_axis)
+            new_axis = sorted(d % ndim_out for d in new_axis)
 
             for axis in new_axis:
-                for existing_axis in list(depth.keys()):
+                # Shuffle existing axes forward, last one first so that no
+                # entry is overwritten before it has been moved
+                for existing_axis in sorted(depth, reverse=True):
                     if existing_axis >= axis:
-                        # Shuffle existing axis forward to give room to insert new_axis
-                        depth[existing_axis + 1] = depth[existing_axis]
-                        boundary[existing_axis + 1] = boundary[existing_axis]
+                        depth[existing_axis + 1] = depth.pop(existing_axis)
+                        boundary[existing_axis + 1] = boundary.pop(existing_axis)
 
                 depth[axis] = 0
                 boundary[axis] = "none"
